@@ -106,6 +106,13 @@ def _strategy():
         if mode <= 4:
             b = draw(G.schema_strategy())
             return dict(a=G.render(a), b=G.render(b), edits=['fresh'])
+        if mode >= 17:
+            # one small, deeply nested change only
+            a = G.ensure_deep_sites(a, draw)
+            b, edits = G.mutate_small(a, draw)
+            if edits:
+                return dict(a=G.render(a), b=G.render(b), edits=edits,
+                            a_via_migration=draw(st.integers(0, 3)) == 0)
         b, edits = G.mutate(a, draw)
         return dict(a=G.render(a), b=G.render(b), edits=edits,
                     a_via_migration=draw(st.integers(0, 3)) == 0)
